@@ -13,7 +13,7 @@ import time
 
 import verifdriver as vd
 
-SCRATCH = "/tmp/verif-selftest"
+SCRATCH = f"/tmp/verif-selftest-{os.getpid()}"
 
 # (name, property, harness filter or None, file, old, new)
 MUTANTS = [
@@ -105,7 +105,7 @@ def seedtest(only: str | None, tier: str, jobs: int) -> int:
     carry `check.json` = {"runs": [{"tier": .., "only": ..}, ...]} naming the runs to try;
     default: the quick tier of the property."""
     import json
-    scratch = "/tmp/verif-seedtest"
+    scratch = f"/tmp/verif-seedtest-{os.getpid()}"
     root = os.path.join(vd.ROOT, "seeded")
     rows = []
     try:
